@@ -62,8 +62,12 @@ func (g *Gateway) Query(ctx context.Context, input *graphql.QueryInput, receiver
 		}
 	}
 
-	// for local stuff we don't care about fragment directives
-	querySelection, err := graphql.ApplyFragments(input.QueryDocument.Operations[0].SelectionSet, input.QueryDocument.Fragments)
+	// drop everything that @skip and @include exclude before the fragments are flattened
+	includedSelection, err := includedSelections(input.QueryDocument.Operations[0].SelectionSet, input.QueryDocument.Fragments, input.Variables, Set{})
+	if err != nil {
+		return err
+	}
+	querySelection, err := graphql.ApplyFragments(includedSelection, input.QueryDocument.Fragments)
 	if err != nil {
 		return err
 	}
@@ -145,6 +149,86 @@ func (g *Gateway) Query(ctx context.Context, input *graphql.QueryInput, receiver
 	}
 
 	return nil
+}
+
+// isIncluded evaluates the @skip and @include directives in the list
+func isIncluded(directives ast.DirectiveList, variables map[string]interface{}) (bool, error) {
+	for _, directive := range directives {
+		if directive.Name != "skip" && directive.Name != "include" {
+			continue
+		}
+		arg := directive.Arguments.ForName("if")
+		if arg == nil {
+			continue
+		}
+		value, err := arg.Value.Value(variables)
+		if err != nil {
+			return false, err
+		}
+		condition, _ := value.(bool)
+		if (directive.Name == "skip" && condition) || (directive.Name == "include" && !condition) {
+			return false, nil
+		}
+	}
+	return true, nil
+}
+
+// includedSelections returns a copy of the selection set without the fields, inline fragments and fragment
+// spreads that are excluded by @skip or @include. Fragment spreads are replaced by the included part of
+// their definition. The original selection set is left untouched since it belongs to a shared query plan.
+func includedSelections(selectionSet ast.SelectionSet, fragments ast.FragmentDefinitionList, variables map[string]interface{}, visited Set) (ast.SelectionSet, error) {
+	result := make(ast.SelectionSet, 0, len(selectionSet))
+	for _, selection := range selectionSet {
+		switch selection := selection.(type) {
+		case *ast.Field:
+			ok, err := isIncluded(selection.Directives, variables)
+			if err != nil {
+				return nil, err
+			}
+			if !ok {
+				continue
+			}
+			subSelection, err := includedSelections(selection.SelectionSet, fragments, variables, visited)
+			if err != nil {
+				return nil, err
+			}
+			fieldCopy := *selection
+			fieldCopy.SelectionSet = subSelection
+			result = append(result, &fieldCopy)
+		case *ast.InlineFragment:
+			ok, err := isIncluded(selection.Directives, variables)
+			if err != nil {
+				return nil, err
+			}
+			if !ok {
+				continue
+			}
+			subSelection, err := includedSelections(selection.SelectionSet, fragments, variables, visited)
+			if err != nil {
+				return nil, err
+			}
+			fragmentCopy := *selection
+			fragmentCopy.SelectionSet = subSelection
+			result = append(result, &fragmentCopy)
+		case *ast.FragmentSpread:
+			ok, err := isIncluded(selection.Directives, variables)
+			if err != nil {
+				return nil, err
+			}
+			definition := fragments.ForName(selection.Name)
+			if !ok || definition == nil || visited.Has(selection.Name) {
+				continue
+			}
+			visited.Add(selection.Name)
+			subSelection, err := includedSelections(definition.SelectionSet, fragments, variables, visited)
+			visited.Remove(selection.Name)
+			if err != nil {
+				return nil, err
+			}
+			result = append(result, &ast.InlineFragment{TypeCondition: definition.TypeCondition, SelectionSet: subSelection})
+		}
+	}
+	return result, nil
 }
 
 func (g *Gateway) introspectSchema(schema *introspection.Schema, selectionSet ast.SelectionSet) map[string]interface{} {
